@@ -369,6 +369,8 @@ func specCase(ctx context.Context, rep *mon.Reporter, rng *mon.Rand, cfg mon.Con
 			rep.Sample(map[string]any{"spec": spec, "options": os})
 		}
 	}
+	resumeCase(ctx, rep, rng, spec, inv, in)
+	unknownCallbackTarget(ctx, rep, rng, spec, r, in)
 	sharedBaseCase(ctx, rep, rng, spec, r, inv, in)
 	flatSharedBase(ctx, rep, rng)
 	handlerCase(ctx, rep, rng, spec, r, inv, in)
